@@ -140,109 +140,24 @@ pub fn generate<W: Write>(c: &mut Cases<W>, rng: &mut Rng, thorough: bool, which
             1 | 2 => { for _ in 0..rng.range(1, 3) { ins.push((vec![], vec![])); } }
             _ => {}
         }
-        let all_small = ins.iter().all(|(k, v)| k.len() + v.len() <= quarter);
-        c.begin("sorter");
-        c.line(&format!("prop {}", which));
-        c.line(&format!(
-            "scfg {} {} {} {} {} {}",
-            cfg.threshold, cfg.realloc as u8, cfg.max_chunks, cfg.init_cap, cfg.stable as u8, cfg.parallel as u8
-        ));
-        c.line(&format!("small {}", all_small as u8));
-        // run 1: per-insert state, then stream
-        let ctr = Rc::new(Counters::default());
-        let mf = LoggingConcat { calls: RefCell::new(Vec::new()), fail_at: None, sort: !cfg.stable };
-        let mm0 = alloc_track::MISMATCHES.load(Relaxed);
-        let mut sorter = build(&cfg, mf, ctr.clone());
-        let mut dead = false;
-        for (k, v) in &ins {
-            if dead {
-                c.line(&format!("ins {} {} = -", hex(k), hex(v)));
-                continue;
-            }
-            match catch(|| sorter.insert(k, v)) {
-                Ok(Ok(())) => {
-                    let (l, u, nb, ch) = sorter.verif_state();
-                    c.line(&format!("ins {} {} = {} {} {} {}", hex(k), hex(v), l, u, nb, ch));
+        emit_sorter_case(c, which, &cfg, &ins);
+    }
+    // small-scope exhaustive: every insert sequence of length 6 (thorough: 8) over two keys, values tagged
+    // with their position, under a grid of tiny budgets x reallocation x max chunks (stable, sequential)
+    if which != "C08" {
+        let len = if thorough { 8 } else { 6 };
+        for threshold in [64usize, 100] {
+            for realloc in [false, true] {
+                for max_chunks in [1usize, 2, 3] {
+                    let cfg = SortCfg { threshold, realloc, max_chunks, init_cap: if realloc { 32 } else { threshold }, stable: true, parallel: false,
+                                        codec: CompressionType::None, levels: 0, block_size: 64 };
+                    for code in 0u32..(1 << len) {
+                        let ins: Vec<(Vec<u8>, Vec<u8>)> = (0..len).map(|p| (vec![if code & (1 << p) != 0 { 9u8 } else { 5u8 }], vec![p as u8; 6])).collect();
+                        emit_sorter_case(c, which, &cfg, &ins);
+                    }
                 }
-                Ok(Err(e)) => { c.line(&format!("ins {} {} = E {}", hex(k), hex(v), err_class(&e))); dead = true; }
-                Err(_) => { c.line(&format!("ins {} {} = P", hex(k), hex(v))); dead = true; }
             }
         }
-        if !dead {
-            let r = catch(move || -> Result<Vec<(Vec<u8>, Vec<u8>)>, String> {
-                let mut it = sorter.into_stream_merger_iter().map_err(|e| err_class(&e))?;
-                let mut out = Vec::new();
-                while let Some((k, v)) = it.next().map_err(|e| err_class(&e))? {
-                    out.push((k.to_vec(), v.to_vec()));
-                }
-                Ok(out)
-            });
-            match r {
-                Ok(Ok(out)) => c.line(&format!("out1 {}", scan_hash(&out))),
-                Ok(Err(e)) => c.line(&format!("out1 err {}", e)),
-                Err(_) => c.line("out1 panic -"),
-            }
-            c.line(&format!("creates {}", ctr.creates.get()));
-            c.line(&format!("peak {}", ctr.peak.get()));
-            c.line(&format!("leaked {}", ctr.live.get()));
-            // run 2: into a writer
-            let ctr2 = Rc::new(Counters::default());
-            let mf2 = LoggingConcat { calls: RefCell::new(Vec::new()), fail_at: None, sort: !cfg.stable };
-            let r2 = catch(|| -> Result<Vec<(Vec<u8>, Vec<u8>)>, String> {
-                let mut s = build(&cfg, mf2, ctr2.clone());
-                for (k, v) in &ins {
-                    s.insert(k, v).map_err(|e| err_class(&e))?;
-                }
-                let mut w = Writer::memory();
-                s.write_into_stream_writer(&mut w).map_err(|e| err_class(&e))?;
-                let f = w.into_inner().map_err(|e| io_class(&e))?;
-                let mut cur = grenad::Reader::new(Cursor::new(f)).map_err(|e| err_class(&e))?.into_cursor().map_err(|e| err_class(&e))?;
-                let mut out = Vec::new();
-                while let Some((k, v)) = cur.move_on_next().map_err(|e| err_class(&e))? {
-                    out.push((k.to_vec(), v.to_vec()));
-                }
-                Ok(out)
-            });
-            match r2 {
-                Ok(Ok(out)) => c.line(&format!("out2 {}", scan_hash(&out))),
-                Ok(Err(e)) => c.line(&format!("out2 err {}", e)),
-                Err(_) => c.line("out2 panic -"),
-            }
-            // run 3: merging the returned chunk cursors by hand
-            let ctr3 = Rc::new(Counters::default());
-            let mf3 = LoggingConcat { calls: RefCell::new(Vec::new()), fail_at: None, sort: !cfg.stable };
-            let r3 = catch(|| -> Result<Vec<(Vec<u8>, Vec<u8>)>, String> {
-                let mut s = build(&cfg, mf3, ctr3.clone());
-                for (k, v) in &ins {
-                    s.insert(k, v).map_err(|e| err_class(&e))?;
-                }
-                let cursors = s.into_reader_cursors().map_err(|e| err_class(&e))?;
-                let mf4 = LoggingConcat { calls: RefCell::new(Vec::new()), fail_at: None, sort: !cfg.stable };
-                let mut b = Merger::builder(mf4);
-                b.extend(cursors);
-                let mut it = b.build().into_stream_merger_iter().map_err(|e| err_class(&e))?;
-                let mut out = Vec::new();
-                while let Some((k, v)) = it.next().map_err(|e| err_class(&e))? {
-                    out.push((k.to_vec(), v.to_vec()));
-                }
-                Ok(out)
-            });
-            match r3 {
-                Ok(Ok(out)) => c.line(&format!("out3 {}", scan_hash(&out))),
-                Ok(Err(e)) => c.line(&format!("out3 err {}", e)),
-                Err(_) => c.line("out3 panic -"),
-            }
-        }
-        c.line(&format!("layout_mismatch {}", alloc_track::MISMATCHES.load(Relaxed) - mm0));
-        c.bump("inserts.total", ins.len() as u64);
-        c.bump(if all_small { "all_small" } else { "has_big_entry" }, 1);
-        c.bump(if cfg.stable { "stable" } else { "unstable" }, 1);
-        c.bump(if cfg.parallel { "parallel" } else { "sequential" }, 1);
-        c.bump("creates.total", ctr.creates.get());
-        if ctr.creates.get() >= 2 {
-            c.nontrivial(&fnv(format!("{:?}{:?}", cfg, ins).as_bytes()).to_le_bytes());
-        }
-        c.end();
     }
     // C17: the public budget setter with degenerate values (0, 1, not a multiple of the bound size) under
     // both reallocation policies: the buffer is never a zero-sized allocation, nothing panics, the
@@ -297,6 +212,113 @@ pub fn generate<W: Write>(c: &mut Cases<W>, rng: &mut Rng, thorough: bool, which
     }
     alloc_track::ENABLED.store(false, Relaxed);
     c.bump("alloc.tracked", alloc_track::TRACKED.load(Relaxed));
+}
+
+fn emit_sorter_case<W: Write>(c: &mut Cases<W>, which: &str, cfg: &SortCfg, ins: &Vec<(Vec<u8>, Vec<u8>)>) {
+    let quarter = cfg.threshold / 4;
+    let all_small = ins.iter().all(|(k, v)| k.len() + v.len() <= quarter);
+    c.begin("sorter");
+    c.line(&format!("prop {}", which));
+    c.line(&format!(
+        "scfg {} {} {} {} {} {}",
+        cfg.threshold, cfg.realloc as u8, cfg.max_chunks, cfg.init_cap, cfg.stable as u8, cfg.parallel as u8
+    ));
+    c.line(&format!("small {}", all_small as u8));
+    // run 1: per-insert state, then stream
+    let ctr = Rc::new(Counters::default());
+    let mf = LoggingConcat { calls: RefCell::new(Vec::new()), fail_at: None, sort: !cfg.stable };
+    let mm0 = alloc_track::MISMATCHES.load(Relaxed);
+    let mut sorter = build(&cfg, mf, ctr.clone());
+    let mut dead = false;
+    for (k, v) in ins.iter() {
+        if dead {
+            c.line(&format!("ins {} {} = -", hex(k), hex(v)));
+            continue;
+        }
+        match catch(|| sorter.insert(k, v)) {
+            Ok(Ok(())) => {
+                let (l, u, nb, ch) = sorter.verif_state();
+                c.line(&format!("ins {} {} = {} {} {} {}", hex(k), hex(v), l, u, nb, ch));
+            }
+            Ok(Err(e)) => { c.line(&format!("ins {} {} = E {}", hex(k), hex(v), err_class(&e))); dead = true; }
+            Err(_) => { c.line(&format!("ins {} {} = P", hex(k), hex(v))); dead = true; }
+        }
+    }
+    if !dead {
+        let r = catch(move || -> Result<Vec<(Vec<u8>, Vec<u8>)>, String> {
+            let mut it = sorter.into_stream_merger_iter().map_err(|e| err_class(&e))?;
+            let mut out = Vec::new();
+            while let Some((k, v)) = it.next().map_err(|e| err_class(&e))? {
+                out.push((k.to_vec(), v.to_vec()));
+            }
+            Ok(out)
+        });
+        match r {
+            Ok(Ok(out)) => c.line(&format!("out1 {}", scan_hash(&out))),
+            Ok(Err(e)) => c.line(&format!("out1 err {}", e)),
+            Err(_) => c.line("out1 panic -"),
+        }
+        c.line(&format!("creates {}", ctr.creates.get()));
+        c.line(&format!("peak {}", ctr.peak.get()));
+        c.line(&format!("leaked {}", ctr.live.get()));
+        // run 2: into a writer
+        let ctr2 = Rc::new(Counters::default());
+        let mf2 = LoggingConcat { calls: RefCell::new(Vec::new()), fail_at: None, sort: !cfg.stable };
+        let r2 = catch(|| -> Result<Vec<(Vec<u8>, Vec<u8>)>, String> {
+            let mut s = build(&cfg, mf2, ctr2.clone());
+            for (k, v) in ins.iter() {
+                s.insert(k, v).map_err(|e| err_class(&e))?;
+            }
+            let mut w = Writer::memory();
+            s.write_into_stream_writer(&mut w).map_err(|e| err_class(&e))?;
+            let f = w.into_inner().map_err(|e| io_class(&e))?;
+            let mut cur = grenad::Reader::new(Cursor::new(f)).map_err(|e| err_class(&e))?.into_cursor().map_err(|e| err_class(&e))?;
+            let mut out = Vec::new();
+            while let Some((k, v)) = cur.move_on_next().map_err(|e| err_class(&e))? {
+                out.push((k.to_vec(), v.to_vec()));
+            }
+            Ok(out)
+        });
+        match r2 {
+            Ok(Ok(out)) => c.line(&format!("out2 {}", scan_hash(&out))),
+            Ok(Err(e)) => c.line(&format!("out2 err {}", e)),
+            Err(_) => c.line("out2 panic -"),
+        }
+        // run 3: merging the returned chunk cursors by hand
+        let ctr3 = Rc::new(Counters::default());
+        let mf3 = LoggingConcat { calls: RefCell::new(Vec::new()), fail_at: None, sort: !cfg.stable };
+        let r3 = catch(|| -> Result<Vec<(Vec<u8>, Vec<u8>)>, String> {
+            let mut s = build(&cfg, mf3, ctr3.clone());
+            for (k, v) in ins.iter() {
+                s.insert(k, v).map_err(|e| err_class(&e))?;
+            }
+            let cursors = s.into_reader_cursors().map_err(|e| err_class(&e))?;
+            let mf4 = LoggingConcat { calls: RefCell::new(Vec::new()), fail_at: None, sort: !cfg.stable };
+            let mut b = Merger::builder(mf4);
+            b.extend(cursors);
+            let mut it = b.build().into_stream_merger_iter().map_err(|e| err_class(&e))?;
+            let mut out = Vec::new();
+            while let Some((k, v)) = it.next().map_err(|e| err_class(&e))? {
+                out.push((k.to_vec(), v.to_vec()));
+            }
+            Ok(out)
+        });
+        match r3 {
+            Ok(Ok(out)) => c.line(&format!("out3 {}", scan_hash(&out))),
+            Ok(Err(e)) => c.line(&format!("out3 err {}", e)),
+            Err(_) => c.line("out3 panic -"),
+        }
+    }
+    c.line(&format!("layout_mismatch {}", alloc_track::MISMATCHES.load(Relaxed) - mm0));
+    c.bump("inserts.total", ins.len() as u64);
+    c.bump(if all_small { "all_small" } else { "has_big_entry" }, 1);
+    c.bump(if cfg.stable { "stable" } else { "unstable" }, 1);
+    c.bump(if cfg.parallel { "parallel" } else { "sequential" }, 1);
+    c.bump("creates.total", ctr.creates.get());
+    if ctr.creates.get() >= 2 {
+        c.nontrivial(&fnv(format!("{:?}{:?}", cfg, ins).as_bytes()).to_le_bytes());
+    }
+    c.end();
 }
 
 /// numeric-only runs with the real (clamped) thresholds and no hooks: sizes only
